@@ -460,7 +460,7 @@ Qed.
 
 Lemma sinv_step s l : sinv s -> slabel_wg l -> sinv (sstep s l).
 Proof.
-  intros Hs Hok. destruct l as [dl|c kl|c|e|c|c]; cbn [sstep].
+  intros Hs Hok. destruct l as [dl|c kl|c rm|e|c|c]; cbn [sstep].
   - apply Forall_app. split; [exact Hs|]. constructor; [|constructor].
     split; [apply kinv_init|]. split; [discriminate|]. intros e [].
   - destruct kl as [p|t ds|t|e]; try exact Hs; apply Forall_upd; try exact Hs; intros cl Hc;
@@ -510,12 +510,13 @@ Proof.
   destruct (opening cl); eexists; (split; [reflexivity|]); split; reflexivity.
 Qed.
 
-(* RST_STREAM: that registered call, and no other *)
-Theorem rst_reaches_that_call_only s c cl :
+(* RST_STREAM from the peer, or h2's own reset after a stream-level violation by the peer (either value
+   of `remote`): that registered call, and no other *)
+Theorem rst_reaches_that_call_only s c cl remote :
   nth_error s c = Some cl -> registered cl = true ->
-  (exists cl', nth_error (sstep s (LRst c)) c = Some cl'
+  (exists cl', nth_error (sstep s (LRst c remote)) c = Some cl'
                /\ werr (ck cl') = Some ETerminated /\ hit cl' = true)
-  /\ forall c', c' <> c -> nth_error (sstep s (LRst c)) c' = nth_error s c'.
+  /\ forall c', c' <> c -> nth_error (sstep s (LRst c remote)) c' = nth_error s c'.
 Proof.
   intros Hn Hr. simpl. unfold upd. rewrite Hn, Hr. split.
   - eexists. split; [eapply nth_set_nth_same; exact Hn|]. split; reflexivity.
@@ -646,7 +647,7 @@ Qed.
 Lemma slabel_ok_wg tbl : forallb well_guarded (call_paths tbl) = true ->
   forall l, slabel_ok tbl l -> slabel_wg l.
 Proof.
-  intros H l Hl. rewrite forallb_forall in H. destruct l as [dl|c kl|c|e|c|c]; try exact I.
+  intros H l Hl. rewrite forallb_forall in H. destruct l as [dl|c kl|c rm|e|c|c]; try exact I.
   destruct kl; try exact I. simpl in *. apply H. exact Hl.
 Qed.
 
@@ -782,7 +783,7 @@ Qed.
 (* ---- the whole correspondence matrix, inside the model ---- *)
 Definition all_ops := [KSr; KSm; KEn; KRi; KRm; KRt; KCa; KAx].
 Definition all_reasons := [RPaused; RWindow; RSlot; RSilent].
-Definition all_events := [VRst; VGoaway; VGarbage; VLost; VClose].
+Definition all_events := [VRst; VGoaway; VGarbage; VLost; VClose; VSerr].
 Definition all_statuses := [StNone; StH503; StTonly 7; StTrailers 5; StTrailers 0].
 Definition all_variants := [VaBase; VaImplicit; VaAfterHeaders].
 Definition bools := [false; true].
@@ -853,8 +854,8 @@ Proof.
   apply Z.eqb_eq in H. congruence.
 Qed.
 
-(* Over the complete matrix operation(8) x reason(4) x event(5) x order(2) x deadline(2) x
-   status-already-arrived(5) x variant(3) = 9600 cells, computed with the GENERATED operations: every
+(* Over the complete matrix operation(8) x reason(4) x event(6) x order(2) x deadline(2) x
+   status-already-arrived(5) x variant(3) = 11520 cells, computed with the GENERATED operations: every
    path the interpreter selects is one of the syntactic paths the theorems quantify over, and in every
    cell that can be set up:  the operation is still pending at quiescence EXACTLY in the D6 class (the
    context exit is then pending too, and only a deadline ends it);  otherwise the operation ends with a
